@@ -103,10 +103,28 @@ type IOCfg struct {
 	FileChunk int // max bytes per Read of an open regular file (0 = unlimited)
 	StdoutTTY bool
 	Env       [][2]string
+	Clock     simos.ClockPolicy // how simulated time passes for code that reads a clock
 }
 
 // runProc runs one process on fs (which it may modify).
+// harvestClock books what the clock seam saw and puts the steady clock back.
+func harvestClock() {
+	if simos.ClockStats.Readings > 0 {
+		stats.probeN("clock-read-by-code-under-test", simos.ClockStats.Readings)
+		simos.ClockStats.Readings = 0
+	}
+	if simos.ClockStats.Expired > 0 {
+		stats.probeN("deadline-or-timer-expired-under-simulated-clock", simos.ClockStats.Expired)
+		simos.ClockStats.Expired = 0
+	}
+	simos.SetClock(simos.ClockPolicy{})
+}
+
 func runProc(fs *simos.FS, spec ProcSpec, io IOCfg, prevStdout []byte) ProcResult {
+	// the process lives under the session's clock; whatever the harness itself
+	// computes afterwards (the reference model) under the steady one
+	simos.SetClock(io.Clock)
+	defer harvestClock()
 	arg0 := spec.Arg0
 	if arg0 == "" {
 		arg0 = "jd"
